@@ -550,7 +550,14 @@ func hashText(s string) string {
 func Solve(script string, timeout time.Duration, only ...string) SolveResult {
 	key := hashText(script)
 	cpath := filepath.Join(cacheDir, key+".json")
+	usedMu.Lock()
+	usedKeys[key] = true
+	usedMu.Unlock()
 	if !noCache {
+		if r, ok := packedLookup(key); ok {
+			atomic.AddInt64(&cacheHits, 1)
+			return r
+		}
 		if b, err := os.ReadFile(cpath); err == nil {
 			var r SolveResult
 			if json.Unmarshal(b, &r) == nil && (r.Verdict == "unsat" || r.Verdict == "sat") {
@@ -680,6 +687,11 @@ func Solve(script string, timeout time.Duration, only ...string) SolveResult {
 	final = best
 	return best
 }
+
+var (
+	usedMu   sync.Mutex
+	usedKeys = map[string]bool{}
+)
 
 var (
 	flightMu  sync.Mutex
